@@ -214,17 +214,21 @@ def _default_to_json(field, key, default_val):
 def _generate_schema_for_fields_internal(
     definitions_schema, field_by_name, mapper, properties, required
 ):
+    # which fields are required is decided on the declared names, before any renaming: renaming the
+    # entries of `required` in place would rename an entry again when a later field has its new name
+    declared_required = list(required)
     for key, field in field_by_name.items():
         mapped_key = (
             mapper[key] if key in mapper and isinstance(mapper[key], (str,)) else key
         )
         mapped_value = _validated_mapped_value(mapper, key)
         if mapped_value is DoNotSerialize or isinstance(mapped_value, Constant):
-            if mapped_key in required:
-                required.pop(required.index(mapped_key))
+            if key in declared_required:
+                required.pop(declared_required.index(key))
+                declared_required.pop(declared_required.index(key))
         else:
-            if key in required:
-                required[required.index(key)] = mapped_key
+            if key in declared_required:
+                required[declared_required.index(key)] = mapped_key
             sub_mapper = mapper.get(f"{key}._mapper", {})
             sub_schema = convert_to_schema(
                 field, definitions_schema, serialization_mapper=sub_mapper
